@@ -34,7 +34,7 @@ def run(prop, tier, seed):
         else:
             dtabs = [q4[1], q4[2]] + q30[:3] + q30[5:6] + q31[:3] + q31[5:6] + q2[:2]
         p, n = tables.spec_rows(dtabs, work, "design")
-        r = tlc_or_die("TraceScores", cfg="TraceScores_spec.cfg", env={"TRACE_FILE": p, "NEED_V3": "1"}, timeout=7200)
+        r = tlc_or_die("TraceScores", cfg="TraceScores_spec.cfg", env={"TRACE_FILE": p, "NEED_V3": "1", "NEED_V2": "1"}, timeout=7200)
         c.add_tlc("design: specification's own scores are monotone (Mode=spec)", r)
         bad = [l for l in r.lines if l.startswith("FAIL ")]
         if bad:
@@ -42,7 +42,7 @@ def run(prop, tier, seed):
         c.extra["design_step_comparisons"] = sum(int(l.split()[2]) for l in r.lines if l.startswith("CMP "))
         # informational: where the 3.0 standard is non-monotone (derives the exemption)
         p, n = tables.spec_rows([reduced(q30[2], {"AV": 1, "AC": 1, "UI": 1}), reduced(q30[3], {"MAV": 1, "MAC": 1, "MUI": 1})] if tier == "quick" else [q30[2], q30[3]], work, "design30")
-        r = tlc_or_die("TraceScores", cfg="TraceScores_specall.cfg", env={"TRACE_FILE": p, "NEED_V3": "1"}, timeout=7200)
+        r = tlc_or_die("TraceScores", cfg="TraceScores_specall.cfg", env={"TRACE_FILE": p, "NEED_V3": "1", "NEED_V2": "1"}, timeout=7200)
         c.add_tlc("design: v3.0 environmental score without the exemption (Mode=specall)", r)
         mets = set()
         for l in r.lines:
@@ -57,7 +57,7 @@ def run(prop, tier, seed):
         c.evaluations = total
         ncmp, nrows = 0, 0
         for path, nr, nent in files:
-            r = tlc_or_die("TraceScores", cfg="TraceScores_mono.cfg", env={"TRACE_FILE": path, "NEED_V3": "1"}, timeout=7200)
+            r = tlc_or_die("TraceScores", cfg="TraceScores_mono.cfg", env={"TRACE_FILE": path, "NEED_V3": "1", "NEED_V2": "1"}, timeout=7200)
             c.add_tlc("TraceScores mono %s" % os.path.basename(path), r)
             if r.distinct != 2 * nr:
                 raise MachineryError("TLC judged %d of %d rows" % (r.distinct // 2, nr))
